@@ -103,7 +103,9 @@ class C10(Campaign):
              "view_vs_model": "C10.view_equals_model"}
     quick_runs = 4000
     thorough_runs = 80000
-    fault_kinds = ["external-write-valid", "external-write-falsy", "external-write-unmapped (setter)",
+    fault_kinds = ["write of a valid value from inside a callback (before / after the engine's own write)",
+                   "nested events (queued or depth-first) between the writes",
+                   "external-write-valid", "external-write-falsy", "external-write-unmapped (setter)",
                    "direct-model-write-unmapped", "storage-setter-raises@k", "falsy-model-object",
                    "falsy-start_value"]
     rule = ("one run = a generated machine whose state values are drawn from str, '', ints incl. 0 and "
@@ -117,6 +119,7 @@ class C10(Campaign):
             "contains an external write or a falsy value/model/start_value; distinct = distinct trace digests.")
     assumptions = [
         "guards/validators are absent (C01's subject); callbacks are few and fault-free",
+        "a state mismatch is only judged in operations whose callback sequence agrees with the reference",
         "after an injected storage error only consistency (view == stored value) is demanded",
     ]
 
@@ -184,11 +187,25 @@ class C10(Campaign):
                                 "value": rnd.choice(["nope", 99, -77, {"$tu": [9, 9]}])})
                     pending_invalid = rnd.random() < 0.7
             out.append(op)
-        beh, gv = gen.gen_behaviours(rnd, prog, k, len(out), [])
+        # some callbacks send nested events and / or write a valid value into the model themselves
+        eff = gen.choose_effectful(rnd, prog, rnd.randint(0, 3), ("before", "exit", "on", "enter", "after"),
+                                   roles=["machine", "model"] + list(ops[0].get("listeners", [])))
+        senders = [c for c in eff if rnd.random() < 0.6]
+        for c in senders:
+            gen.ensure_machine_param(prog, c)
+        if is_async:
+            for c in eff:
+                prog["cbs"][c]["async"] = True
+        beh, gv = gen.gen_behaviours(rnd, prog, k, len(out), senders)
+        for c in eff:
+            if mk != "none" and (c not in senders or rnd.random() < 0.4):
+                full = f"{prog['name']}/{c}"
+                rules = beh.setdefault(full, [{}])
+                rules[-1]["write"] = {"value": value_of(prog, rnd.choice(ids))}
         sc = {"profile": "C10", "programs": [prog], "beh": beh, "gv": gv, "ops": out,
               "driver": rnd.choice(k["drivers"]) if is_async else "sync", "perm_seed": rnd.randrange(1 << 30),
               "observe_more": True, "value_kind": kind}
-        if mk == "property" and rnd.random() < 0.5:
+        if mk == "property" and rnd.random() < 0.5 and not eff:
             sc["storage_faults"] = {"A": sorted(rnd.sample(range(1, 12), rnd.randint(1, 2)))}
         # make sure invalid values are really unmapped
         vals = {repr(value_of(prog, s)) for s in ids}
@@ -196,6 +213,20 @@ class C10(Campaign):
                                                   and repr(o["value"]) in ("'nope'", "99", "-77")
                                                   and repr(o["value"]) in vals)]
         return sc
+
+    def classify(self, sc, res, findings):
+        # a state mismatch in an operation whose callback SEQUENCE also deviates is someone else's
+        # business (queue order, callback order): the run stops being judged there
+        bad_ops = {f["op"] for f in findings if f["kind"].startswith("seq.") or f["kind"] == "nested_count"}
+        kept = []
+        for f in findings:
+            if f["op"] in bad_ops:
+                kept.append({"kind": "harness.other_property", "op": f["op"], "detail": {}})
+                break
+            kept.append(f)
+        return super().classify(sc, res, kept)
+
+    DESYNC = Campaign.DESYNC + ("harness.other_property",)
 
     def evaluate(self, sc):
         prog = sc["programs"][0]
